@@ -1,5 +1,5 @@
 (* C12 — client transactions match by ID, retransmit on schedule and always terminate. *)
-From Turn Require Import Bytes ClientTx ClientTxP.
+From Turn Require Import Bytes ClientTx ClientTxP C12Check ClientTxTrace.
 Open Scope Z_scope.
 
 (* with no response and every write succeeding, the request is sent 7 times in all: transmission k
@@ -56,3 +56,15 @@ Theorem C12_finished_not_in_table : forall wr t l l' a, Forall wf_tr l -> advanc
   forall id r at_, In (Result id r at_) a -> NoDup (map t_id l) -> ~ In id (map t_id l').
 Proof. exact advance_all_results. Qed.
 Print Assumptions C12_finished_not_in_table.
+
+(* HISTORY LEVEL: the whole predicate that the correspondence check evaluates on every observed trace of
+   the real client (C12Check.holds: at most one result per transaction, every transmission on the
+   closed-form schedule and never an eighth, a success only for the response with that id, Close empties
+   the table, the table never holds more than the started and unfinished transactions) holds on every
+   trace of the model - for every RTO, every pattern of socket write outcomes and every event history
+   whose transaction ids are fresh (the property's own assumption; starts h lists the ids of EStart) -
+   and the runner accepts that trace as agreeing with the model. *)
+Theorem C12_holds_on_every_model_trace : forall rto fail h, NoDup (starts h) ->
+  C12Check.run (model_case rto fail h) = (true, true).
+Proof. exact run_model_case. Qed.
+Print Assumptions C12_holds_on_every_model_trace.
